@@ -403,10 +403,13 @@ func (c *Client) Lock(keys [][]byte, flags string) string {
 	return "ok"
 }
 
-func (c *Client) Commit() string {
+func (c *Client) Commit() string { return c.CommitCtx(context.Background()) }
+
+// CommitCtx = Commit with the caller's context (a fault may cancel it while a request is outstanding).
+func (c *Client) CommitCtx(ctx context.Context) string {
 	n := c.callBegin("commit")
 	st := c.txn
-	err := st.txn.Commit(context.Background())
+	err := st.txn.Commit(ctx)
 	res := ""
 	switch cl := Classify(err); cl {
 	case "ok":
